@@ -516,7 +516,9 @@ func (m *Monitors) PostDelivery(d *deliveryCtx, effects []spi.Event, panicked bo
 	}
 	// ---- a node that has just handled a COMMIT and holds, in its own log, the proposal of (h, v, hash) with its block and COMMITs of
 	// quorum weight for it has handed the block to its commit callback (now or earlier), whatever became of its own sends
-	if msg.Env == ref.EnvC && d.mustIgn == "" && !panicked && !d.handoff && d.inComm && d.pre.H == msg.H {
+	// (judged only when this COMMIT reached the point where the node counts its COMMITs — it was handed to the log in this
+	// delivery; a proposal that arrives after a quorum of COMMITs is not itself such a point in this library)
+	if _, counted := has(effects, n.Id, spi.EvStoreC, msg.H, msg.V, msg.Sender.Id); counted && msg.Env == ref.EnvC && d.mustIgn == "" && !panicked && !d.handoff && d.inComm && d.pre.H == msg.H {
 		nm := nm0(m, n)
 		k := hvh{msg.H, msg.V, string(msg.Hash)}
 		if nm.storedPP[hv{msg.H, msg.V}] == string(msg.Hash) && !nm.blockless[hv{msg.H, msg.V}] && weightOK(m.w.Comm(msg.H), nm.heldC[k]) {
